@@ -9,11 +9,12 @@
    are valid.  Third theorem: a replace step and a node-level step (attribute, add / remove node mark) behind it.
    That both orders do apply, and the pairs involving replace-around and mark steps, are evaluated per case by
    Corr.C17. *)
-From Coq Require Import List Arith.
+From Coq Require Import List Arith ZArith.
 From PM Require Import Model.Data Model.Mark Model.Tree Model.StepMap Model.Step Spec.Tokens
   Proofs.ReplaceValid Proofs.SliceSides Proofs.TokenBasics Proofs.ReplaceTokens Proofs.SliceShape Proofs.TokenLaws
-  Proofs.StepAlgebra Proofs.TokenInj Proofs.ReplaceCanon Proofs.DocEquality Proofs.NodeSteps Proofs.NodeStepCommute Proofs.MarkSteps Proofs.MarkCommute.
+  Proofs.StepAlgebra Proofs.TokenInj Proofs.ReplaceCanon Proofs.DocEquality Proofs.NodeSteps Proofs.NodeStepCommute Proofs.MarkSteps Proofs.MarkPointwise Proofs.MarkCommute Proofs.AroundCommute Proofs.NodeStepCommute Proofs.NodeAroundCommute.
 Import ListNotations.
+Local Open Scope nat_scope.
 
 Theorem C17_separated_replace_steps_commute : forall s f1 t1 s1 st1 f2 t2 s2 st2 doc da db,
   check s doc = true ->
@@ -92,3 +93,256 @@ Theorem C17_separated_mark_steps_commute : forall s a b f1 t1 f2 t2 doc da db da
   step_map a (get_map s b) = Some a /\ step_map b (get_map s a) = Some b /\ DT s dab = DT s dba.
 Proof. exact separated_mark_steps_commute. Qed.
 Print Assumptions C17_separated_mark_steps_commute.
+
+(* ---- a replace step and a mark step ----
+   A mark step in FRONT of a replace step (its range ends before the replaced range starts): the replace step changes nothing
+   the mark step reads, the mark step changes no sizes - neither step moves under rebasing and both orders give the same
+   token sequence. *)
+Theorem C17_mark_step_before_replace_commute : forall s f t sl structure b f2 t2 doc da db,
+  check s doc = true -> OpenOK s (sl_content sl) (sl_open_start sl) (sl_open_end sl) -> f <= t ->
+  mark_step_range b = Some (f2, t2) -> f2 <= t2 -> t2 < f ->
+  apply s (SReplace f t sl structure) doc = ROk da ->
+  apply s b doc = ROk db ->
+  step_map b (get_map s (SReplace f t sl structure)) = Some b /\
+  step_map (SReplace f t sl structure) (get_map s b) = Some (SReplace f t sl false) /\
+  forall dab dba,
+    check s db = true -> apply s b da = ROk dab -> apply s (SReplace f t sl false) db = ROk dba ->
+    DT s dab = DT s dba.
+Proof. exact mark_step_before_replace_commute. Qed.
+Print Assumptions C17_mark_step_before_replace_commute.
+
+(* A mark step BEHIND a replace step reads one thing the replace step may change: the chain of nodes that are open at the end
+   of the replaced range (it decides which node encloses the tokens behind it, hence whether a mark is allowed there).  When
+   that chain is the same before and after the replace step - true of every edit that stays inside one parent node, false
+   when the step joins or retypes nodes: exactly the recorded finding C17-join-vs-mark-context - rebasing shifts the mark
+   step by the size change, never drops it, and both orders give the same token sequence. *)
+Theorem C17_mark_step_after_replace_commute : forall s f t sl structure b f2 t2 doc da db,
+  check s doc = true -> OpenOK s (sl_content sl) (sl_open_start sl) (sl_open_end sl) -> f <= t ->
+  mark_step_range b = Some (f2, t2) -> t < f2 -> f2 <= t2 ->
+  ctx_after (firstn f (DT s doc) ++ IT s sl) ([], node_ty s doc) = ctx_after (firstn t (DT s doc)) ([], node_ty s doc) ->
+  apply s (SReplace f t sl structure) doc = ROk da ->
+  apply s b doc = ROk db ->
+  let delta := (Z.of_nat (length (IT s sl)) - (Z.of_nat t - Z.of_nat f))%Z in
+  let b' := move_mark_step b (Z.to_nat (Z.of_nat f2 + delta)) (Z.to_nat (Z.of_nat t2 + delta)) in
+  step_map b (get_map s (SReplace f t sl structure)) = Some b' /\
+  step_map (SReplace f t sl structure) (get_map s b) = Some (SReplace f t sl false) /\
+  forall dab dba,
+    check s db = true -> apply s b' da = ROk dab -> apply s (SReplace f t sl false) db = ROk dba ->
+    DT s dab = DT s dba.
+Proof.
+  intros s f t sl structure b f2 t2 doc da db Hd Ho Hft Rb Hsep H2 Hctx Ha Hb delta b'.
+  pose proof (OpenOK_Shape s _ _ _ Ho) as Hs.
+  split; [exact (mark_step_map_after s f t sl structure b f2 t2 Hs Hft Rb Hsep H2)|].
+  destruct (mark_step_after_replace_commute s f t sl structure b f2 t2 doc da db Hd Ho Hft Rb Hsep H2 Hctx Ha Hb) as (M & Hc).
+  split; [exact M|]. intros dab dba Hdb Hab Hba.
+  apply (Hc b' dab dba); try assumption; unfold b'; destruct b; try discriminate; reflexivity.
+Qed.
+Print Assumptions C17_mark_step_after_replace_commute.
+
+(* An attribute / node-mark step at a position outside a mark step's range: the node step rewrites one token and keeps its
+   node type, the mark step re-marks the tokens of its range only - both maps are empty (neither step moves under rebasing)
+   and both orders give the same token sequence.  (The intermediate documents are valid: C01_node_step_valid for the node
+   step; for the mark step a decidable hypothesis.) *)
+Theorem C17_node_step_and_mark_step_commute : forall s a pos b f2 t2 doc da db dab dba,
+  check s doc = true -> check s da = true -> check s db = true ->
+  is_node_step a = Some pos -> mark_step_range b = Some (f2, t2) -> f2 <= t2 -> (pos < f2 \/ t2 <= pos) ->
+  apply s a doc = ROk da -> apply s b doc = ROk db ->
+  apply s b da = ROk dab -> apply s a db = ROk dba ->
+  get_map s a = empty_map /\ get_map s b = empty_map /\ DT s dab = DT s dba.
+Proof. exact node_step_and_mark_step_commute. Qed.
+Print Assumptions C17_node_step_and_mark_step_commute.
+
+(* Two attribute / node-mark steps on different nodes: both maps are empty and both orders give the same token sequence *)
+Theorem C17_two_node_steps_commute : forall s a pa b pb doc da db dab dba,
+  check s doc = true -> check s da = true -> check s db = true ->
+  is_node_step a = Some pa -> is_node_step b = Some pb -> pa <> pb ->
+  apply s a doc = ROk da -> apply s b doc = ROk db ->
+  apply s b da = ROk dab -> apply s a db = ROk dba ->
+  DT s dab = DT s dba.
+Proof. exact two_node_steps_commute. Qed.
+Print Assumptions C17_two_node_steps_commute.
+
+(* ---- a replace step and a replace-around step (what lift, wrap, set_block_type and set_node_markup record) ----
+   With at least one untouched token between them: the step in front does not move under rebasing, the step behind is shifted
+   by the other's size change (for the replace-around step: inserted wrapper tokens minus deleted ones), neither is dropped,
+   and both orders give the same token sequence.  (Validity of the documents a replace-around step produces is a decidable
+   hypothesis: C01 has no validity theorem for replace-around steps - recorded finding C01-replace-around-closed-wrapper.) *)
+Theorem C17_replace_before_around_commute : forall s f1 t1 s1 st1 from to gf gt sl ins st doc da db,
+  check s doc = true -> OpenOK s (sl_content s1) (sl_open_start s1) (sl_open_end s1) ->
+  Shape s (sl_content sl) (sl_open_start sl) (sl_open_end sl) ->
+  f1 <= t1 -> t1 < from -> from <= gf -> gf <= gt -> gt <= to -> ins <= length (IT s sl) ->
+  apply s (SReplace f1 t1 s1 st1) doc = ROk da ->
+  apply s (SReplaceAround from to gf gt sl ins st) doc = ROk db ->
+  let d := length (IT s s1) in let sh p := p + d - (t1 - f1) in
+  step_map (SReplace f1 t1 s1 st1) (get_map s (SReplaceAround from to gf gt sl ins st)) = Some (SReplace f1 t1 s1 false) /\
+  step_map (SReplaceAround from to gf gt sl ins st) (get_map s (SReplace f1 t1 s1 st1)) =
+    Some (SReplaceAround (sh from) (sh to) (sh gf) (sh gt) sl ins st) /\
+  forall dab dba,
+    check s db = true ->
+    apply s (SReplaceAround (sh from) (sh to) (sh gf) (sh gt) sl ins st) da = ROk dab ->
+    apply s (SReplace f1 t1 s1 false) db = ROk dba ->
+    DT s dab = DT s dba.
+Proof. exact replace_before_around_commute. Qed.
+Print Assumptions C17_replace_before_around_commute.
+
+Theorem C17_replace_after_around_commute : forall s f1 t1 s1 st1 from to gf gt sl ins st doc da db,
+  check s doc = true -> OpenOK s (sl_content s1) (sl_open_start s1) (sl_open_end s1) ->
+  Shape s (sl_content sl) (sl_open_start sl) (sl_open_end sl) ->
+  from <= gf -> gf <= gt -> gt <= to -> to < f1 -> f1 <= t1 -> ins <= length (IT s sl) ->
+  apply s (SReplaceAround from to gf gt sl ins st) doc = ROk da ->
+  apply s (SReplace f1 t1 s1 st1) doc = ROk db ->
+  let sh p := p + length (IT s sl) + (gt - gf) - (to - from) in
+  step_map (SReplaceAround from to gf gt sl ins st) (get_map s (SReplace f1 t1 s1 st1)) =
+    Some (SReplaceAround from to gf gt sl ins st) /\
+  step_map (SReplace f1 t1 s1 st1) (get_map s (SReplaceAround from to gf gt sl ins st)) = Some (SReplace (sh f1) (sh t1) s1 false) /\
+  forall dab dba,
+    check s da = true -> check s db = true ->
+    apply s (SReplace (sh f1) (sh t1) s1 false) da = ROk dab ->
+    apply s (SReplaceAround from to gf gt sl ins st) db = ROk dba ->
+    DT s dab = DT s dba.
+Proof. exact replace_after_around_commute. Qed.
+Print Assumptions C17_replace_after_around_commute.
+
+(* A mark step in front of a replace-around step: neither moves, both orders give the same token sequence *)
+Theorem C17_mark_step_before_around_commute : forall s from to gf gt sl ins st b f2 t2 doc da db,
+  check s doc = true -> Shape s (sl_content sl) (sl_open_start sl) (sl_open_end sl) ->
+  from <= gf -> gf <= gt -> gt <= to -> ins <= length (IT s sl) ->
+  mark_step_range b = Some (f2, t2) -> f2 <= t2 -> t2 < from ->
+  apply s (SReplaceAround from to gf gt sl ins st) doc = ROk da ->
+  apply s b doc = ROk db ->
+  step_map b (get_map s (SReplaceAround from to gf gt sl ins st)) = Some b /\
+  step_map (SReplaceAround from to gf gt sl ins st) (get_map s b) = Some (SReplaceAround from to gf gt sl ins st) /\
+  forall dab dba,
+    check s da = true -> check s db = true ->
+    apply s b da = ROk dab -> apply s (SReplaceAround from to gf gt sl ins st) db = ROk dba ->
+    DT s dab = DT s dba.
+Proof. exact mark_step_before_around_commute. Qed.
+Print Assumptions C17_mark_step_before_around_commute.
+
+(* Two replace-around steps separated by a token (e.g. two lifts, a wrap and a lift): the one in front stays, the one behind is
+   shifted by the first one's size change, both orders give the same token sequence *)
+Theorem C17_two_around_steps_commute : forall s f1 t1 gf1 gt1 sl1 ins1 st1 f2 t2 gf2 gt2 sl2 ins2 st2 doc da db,
+  check s doc = true ->
+  Shape s (sl_content sl1) (sl_open_start sl1) (sl_open_end sl1) -> Shape s (sl_content sl2) (sl_open_start sl2) (sl_open_end sl2) ->
+  f1 <= gf1 -> gf1 <= gt1 -> gt1 <= t1 -> ins1 <= length (IT s sl1) ->
+  t1 < f2 -> f2 <= gf2 -> gf2 <= gt2 -> gt2 <= t2 -> ins2 <= length (IT s sl2) ->
+  apply s (SReplaceAround f1 t1 gf1 gt1 sl1 ins1 st1) doc = ROk da ->
+  apply s (SReplaceAround f2 t2 gf2 gt2 sl2 ins2 st2) doc = ROk db ->
+  let sh p := p + length (IT s sl1) + (gt1 - gf1) - (t1 - f1) in
+  step_map (SReplaceAround f1 t1 gf1 gt1 sl1 ins1 st1) (get_map s (SReplaceAround f2 t2 gf2 gt2 sl2 ins2 st2)) =
+    Some (SReplaceAround f1 t1 gf1 gt1 sl1 ins1 st1) /\
+  step_map (SReplaceAround f2 t2 gf2 gt2 sl2 ins2 st2) (get_map s (SReplaceAround f1 t1 gf1 gt1 sl1 ins1 st1)) =
+    Some (SReplaceAround (sh f2) (sh t2) (sh gf2) (sh gt2) sl2 ins2 st2) /\
+  forall dab dba,
+    check s da = true -> check s db = true ->
+    apply s (SReplaceAround (sh f2) (sh t2) (sh gf2) (sh gt2) sl2 ins2 st2) da = ROk dab ->
+    apply s (SReplaceAround f1 t1 gf1 gt1 sl1 ins1 st1) db = ROk dba ->
+    DT s dab = DT s dba.
+Proof. exact two_around_steps_commute. Qed.
+Print Assumptions C17_two_around_steps_commute.
+
+(* a mark step BEHIND a replace-around step, under the same context hypothesis as for a replace step *)
+Theorem C17_mark_step_after_around_commute : forall s from to gf gt sl ins st b f2 t2 doc da db,
+  check s doc = true -> Shape s (sl_content sl) (sl_open_start sl) (sl_open_end sl) ->
+  from <= gf -> gf <= gt -> gt <= to -> ins <= length (IT s sl) ->
+  mark_step_range b = Some (f2, t2) -> to < f2 -> f2 <= t2 ->
+  ctx_after (firstn from (DT s doc) ++ firstn ins (IT s sl) ++ seg (DT s doc) gf gt ++ skipn ins (IT s sl)) ([], node_ty s doc)
+    = ctx_after (firstn to (DT s doc)) ([], node_ty s doc) ->
+  apply s (SReplaceAround from to gf gt sl ins st) doc = ROk da ->
+  apply s b doc = ROk db ->
+  let sh p := p + length (IT s sl) + (gt - gf) - (to - from) in
+  let b' := move_mark_step b (sh f2) (sh t2) in
+  step_map b (get_map s (SReplaceAround from to gf gt sl ins st)) = Some b' /\
+  step_map (SReplaceAround from to gf gt sl ins st) (get_map s b) = Some (SReplaceAround from to gf gt sl ins st) /\
+  forall dab dba,
+    check s da = true -> check s db = true ->
+    apply s b' da = ROk dab -> apply s (SReplaceAround from to gf gt sl ins st) db = ROk dba ->
+    DT s dab = DT s dba.
+Proof. exact mark_step_after_around_commute. Qed.
+Print Assumptions C17_mark_step_after_around_commute.
+
+(* a node-level step (attribute, node mark) in front of / behind a replace-around step *)
+Theorem C17_node_step_before_around_commute : forall s from to gf gt sl ins str st pos doc da db,
+  check s doc = true -> Shape s (sl_content sl) (sl_open_start sl) (sl_open_end sl) ->
+  from <= gf -> gf <= gt -> gt <= to -> ins <= length (IT s sl) ->
+  is_node_step st = Some pos -> pos < from ->
+  apply s (SReplaceAround from to gf gt sl ins str) doc = ROk da ->
+  apply s st doc = ROk db ->
+  step_map st (get_map s (SReplaceAround from to gf gt sl ins str)) = Some st /\
+  step_map (SReplaceAround from to gf gt sl ins str) (get_map s st) = Some (SReplaceAround from to gf gt sl ins str) /\
+  forall dab dba,
+    check s da = true -> check s db = true ->
+    apply s st da = ROk dab -> apply s (SReplaceAround from to gf gt sl ins str) db = ROk dba ->
+    DT s dab = DT s dba.
+Proof. exact node_step_before_around_commute. Qed.
+Print Assumptions C17_node_step_before_around_commute.
+
+Theorem C17_node_step_after_around_commute : forall s from to gf gt sl ins str st pos doc da db,
+  check s doc = true -> Shape s (sl_content sl) (sl_open_start sl) (sl_open_end sl) ->
+  from <= gf -> gf <= gt -> gt <= to -> ins <= length (IT s sl) ->
+  is_node_step st = Some pos -> to < pos ->
+  apply s (SReplaceAround from to gf gt sl ins str) doc = ROk da ->
+  apply s st doc = ROk db ->
+  let pos' := pos + length (IT s sl) + (gt - gf) - (to - from) in
+  step_map st (get_map s (SReplaceAround from to gf gt sl ins str)) = Some (move_step st pos') /\
+  step_map (SReplaceAround from to gf gt sl ins str) (get_map s st) = Some (SReplaceAround from to gf gt sl ins str) /\
+  forall dab dba,
+    check s da = true -> check s db = true ->
+    apply s (move_step st pos') da = ROk dab -> apply s (SReplaceAround from to gf gt sl ins str) db = ROk dba ->
+    DT s dab = DT s dba.
+Proof. exact node_step_after_around_commute. Qed.
+Print Assumptions C17_node_step_after_around_commute.
+
+(* ... and addressing a node strictly inside the gap, the content the replace-around step keeps *)
+Theorem C17_node_step_in_gap_commute : forall s from to gf gt sl ins str st pos doc da db,
+  check s doc = true -> Shape s (sl_content sl) (sl_open_start sl) (sl_open_end sl) ->
+  from <= gf -> gf <= gt -> gt <= to -> ins <= length (IT s sl) ->
+  is_node_step st = Some pos -> gf < pos -> pos < gt ->
+  apply s (SReplaceAround from to gf gt sl ins str) doc = ROk da ->
+  apply s st doc = ROk db ->
+  let pos' := pos + ins - (gf - from) in
+  step_map st (get_map s (SReplaceAround from to gf gt sl ins str)) = Some (move_step st pos') /\
+  step_map (SReplaceAround from to gf gt sl ins str) (get_map s st) = Some (SReplaceAround from to gf gt sl ins str) /\
+  forall dab dba,
+    check s da = true -> check s db = true ->
+    apply s (move_step st pos') da = ROk dab -> apply s (SReplaceAround from to gf gt sl ins str) db = ROk dba ->
+    DT s dab = DT s dba.
+Proof. exact node_step_in_gap_commute. Qed.
+Print Assumptions C17_node_step_in_gap_commute.
+
+(* the context hypothesis is met by an edit that stays inside one paragraph: typing "x" at position 2 of the example
+   document of Properties/C01.v leaves the chain of open nodes at its end unchanged; an em step over "cd" (6..8) behind it
+   is shifted by one and both orders agree *)
+From PM Require Properties.C01.
+Example C17_mark_after_replace_example :
+  let s := Properties.C01.ex_schema in let doc := Properties.C01.ex_doc in
+  let sl := SL [Text [120%N] []] 0 0 in let em := {| m_ty := 0; m_attrs := [] |} in
+  ctx_after (firstn 2 (DT s doc) ++ IT s sl) ([], node_ty s doc) = ctx_after (firstn 2 (DT s doc)) ([], node_ty s doc) /\
+  step_map (SAddMark 6 8 em) (get_map s (SReplace 2 2 sl false)) = Some (SAddMark 7 9 em) /\
+  exists da db dab dba,
+    apply s (SReplace 2 2 sl false) doc = ROk da /\ apply s (SAddMark 6 8 em) doc = ROk db /\
+    apply s (SAddMark 7 9 em) da = ROk dab /\ apply s (SReplace 2 2 sl false) db = ROk dba /\ DT s dab = DT s dba.
+Proof.
+  cbv zeta. split; [vm_compute; reflexivity|]. split; [vm_compute; reflexivity|].
+  do 4 eexists. split; [vm_compute; reflexivity|]. split; [vm_compute; reflexivity|].
+  split; [vm_compute; reflexivity|]. split; [vm_compute; reflexivity|]. vm_compute. reflexivity.
+Qed.
+
+(* a lift seen by the replace-around theorems: typing "x" into the first paragraph of the example document and, against the
+   same base, lifting the two paragraphs out of the blockquote (ReplaceAround 4 14 5 13 with the empty slice): the lift is
+   shifted by one, the typing stays, both orders apply and give the same tokens *)
+Example C17_replace_before_around_example :
+  let s := Properties.C01.ex_schema in let doc := Properties.C01.ex_doc in
+  let ty := SReplace 2 2 (SL [Text [120%N] []] 0 0) false in
+  let lift := SReplaceAround 4 14 5 13 (SL [] 0 0) 0 true in
+  let lift' := SReplaceAround 5 15 6 14 (SL [] 0 0) 0 true in
+  step_map lift (get_map s ty) = Some lift' /\ step_map ty (get_map s lift) = Some ty /\
+  exists da db dab dba,
+    apply s ty doc = ROk da /\ apply s lift doc = ROk db /\ check s db = true /\
+    apply s lift' da = ROk dab /\ apply s ty db = ROk dba /\ DT s dab = DT s dba /\
+    dab = Elem 0%nat [] [] [Properties.C01.ex_p [97%N; 120%N; 98%N]; Properties.C01.ex_p [99%N; 100%N]; Properties.C01.ex_p [101%N; 102%N]].
+Proof.
+  cbv zeta. split; [vm_compute; reflexivity|]. split; [vm_compute; reflexivity|].
+  do 4 eexists. split; [vm_compute; reflexivity|]. split; [vm_compute; reflexivity|]. split; [vm_compute; reflexivity|].
+  split; [vm_compute; reflexivity|]. split; [vm_compute; reflexivity|]. split; vm_compute; reflexivity.
+Qed.
